@@ -51,7 +51,14 @@ func c02RandomOp(s *Sess, u univ, rng *Rng) {
 	case w < 19:
 		s.ListBuckets()
 	case w < 42:
-		s.Put(b, k, u.bodies[rng.Intn(len(u.bodies))], nil)
+		var m []KV
+		switch rng.Intn(4) { // metadata travels with the object: overwritten, copied, deleted along with it
+		case 1:
+			m = []KV{{"X-Amz-Meta-Tag", string(rune('a' + rng.Intn(3)))}}
+		case 2:
+			m = []KV{{"Content-Type", "text/x-" + string(rune('a'+rng.Intn(3)))}, {"X-Amz-Meta-Other", "o"}}
+		}
+		s.Put(b, k, u.bodies[rng.Intn(len(u.bodies))], m)
 	case w < 57:
 		s.Get(b, k, "")
 	case w < 62:
@@ -168,5 +175,5 @@ func runC02(tier string, seed uint64) {
 		}
 	}
 	sample("exhaustive: all sequences of length 3 over 18 symbols (mkb/rmb/put/get/head/del/mdel/copy incl. self-copy/hdb) on mem, then probe (lsb, list, get every key)")
-	sample("random: 40 ops per sequence over 2 buckets x 4 keys x 3 bodies; weights put 23 get 15 del 12 copy 12 mdel 6 mkb 8 rmb 5 list 8 ...")
+	sample("random: 40 ops per sequence over 2 buckets x 4 keys x 3 bodies x 7 metadata sets; weights put 23 get 15 del 12 copy 12 mdel 6 mkb 8 rmb 5 list 8 ...")
 }
